@@ -1,7 +1,10 @@
 package http2
 
 import (
+	"bytes"
 	"io"
+	"iter"
+	"net"
 
 	"github.com/valyala/fasthttp"
 )
@@ -124,4 +127,98 @@ func vStubReqCloseBodyStream(r *fasthttp.Request) error {
 //verif:replace (*github.com/valyala/fasthttp.Response).AppendBody
 func vStubRespAppendBody(r *fasthttp.Response, p []byte) {
 	vGhostOf(r).contentLength += len(p)
+}
+
+// ---- response side ----
+
+//verif:replace (*github.com/valyala/fasthttp.RequestCtx).Init2
+func vStubCtxInit2(ctx *fasthttp.RequestCtx, conn net.Conn, logger fasthttp.Logger, reduce bool) {}
+
+//verif:replace (*github.com/valyala/fasthttp.Response).Reset
+func vStubRespReset(r *fasthttp.Response) {
+	g := vGhostOf(r)
+	g.body, g.bodyStream, g.resets = nil, nil, g.resets+1
+	h := vGhostOf(&r.Header)
+	h.status, h.contentLength, h.keys, h.vals = 0, 0, nil, nil
+}
+
+//verif:replace (*github.com/valyala/fasthttp.Response).SetStatusCode
+func vStubRespSetStatusCode(r *fasthttp.Response, code int) { vGhostOf(&r.Header).status = code }
+
+//verif:replace (*github.com/valyala/fasthttp.Response).StatusCode
+func vStubRespStatusCode(r *fasthttp.Response) int { return vStubRshStatusCode(&r.Header) }
+
+//verif:replace (*github.com/valyala/fasthttp.ResponseHeader).SetStatusCode
+func vStubRshSetStatusCode(h *fasthttp.ResponseHeader, code int) { vGhostOf(h).status = code }
+
+//verif:replace (*github.com/valyala/fasthttp.ResponseHeader).StatusCode
+func vStubRshStatusCode(h *fasthttp.ResponseHeader) int {
+	if c := vGhostOf(h).status; c != 0 {
+		return c
+	}
+	return 200
+}
+
+//verif:replace (*github.com/valyala/fasthttp.ResponseHeader).SetContentLength
+func vStubRshSetContentLength(h *fasthttp.ResponseHeader, n int) { vGhostOf(h).contentLength = n }
+
+//verif:replace (*github.com/valyala/fasthttp.ResponseHeader).ContentLength
+func vStubRshContentLength(h *fasthttp.ResponseHeader) int { return vGhostOf(h).contentLength }
+
+//verif:replace (*github.com/valyala/fasthttp.ResponseHeader).Del
+func vStubRshDel(h *fasthttp.ResponseHeader, key string) {
+	g := vGhostOf(h)
+	var ks, vs [][]byte
+	for i := range g.keys {
+		if !bytes.EqualFold(g.keys[i], []byte(key)) {
+			ks, vs = append(ks, g.keys[i]), append(vs, g.vals[i])
+		}
+	}
+	g.keys, g.vals = ks, vs
+}
+
+//verif:replace (*github.com/valyala/fasthttp.ResponseHeader).Set
+func vStubRshSet(h *fasthttp.ResponseHeader, key, value string) {
+	g := vGhostOf(h)
+	g.keys, g.vals = append(g.keys, []byte(key)), append(g.vals, []byte(value))
+}
+
+//verif:replace (*github.com/valyala/fasthttp.ResponseHeader).AddBytesKV
+func vStubRshAddBytesKV(h *fasthttp.ResponseHeader, k, v []byte) {
+	g := vGhostOf(h)
+	g.keys, g.vals = append(g.keys, vCopy(k)), append(g.vals, vCopy(v))
+}
+
+// All yields the fields that were set, in order (the real method also yields
+// Content-Type, Server, Date and Content-Length lines that fasthttp adds by
+// itself; harnesses compare only the fields the handler set).
+//
+//verif:replace (*github.com/valyala/fasthttp.ResponseHeader).All
+func vStubRshAll(h *fasthttp.ResponseHeader) iter.Seq2[[]byte, []byte] {
+	g := vGhostOf(h)
+	return func(yield func([]byte, []byte) bool) {
+		for i := range g.keys {
+			if !yield(g.keys[i], g.vals[i]) {
+				return
+			}
+		}
+	}
+}
+
+//verif:replace (*github.com/valyala/fasthttp.Response).SetBody
+func vStubRespSetBody(r *fasthttp.Response, b []byte) { vGhostOf(r).body = vCopy(b) }
+
+//verif:replace (*github.com/valyala/fasthttp.Response).Body
+func vStubRespBody(r *fasthttp.Response) []byte { return vGhostOf(r).body }
+
+//verif:replace (*github.com/valyala/fasthttp.Response).IsBodyStream
+func vStubRespIsBodyStream(r *fasthttp.Response) bool { return vGhostOf(r).bodyStream != nil }
+
+//verif:replace (*github.com/valyala/fasthttp.Response).BodyStream
+func vStubRespBodyStream(r *fasthttp.Response) io.Reader { return vGhostOf(r).bodyStream }
+
+//verif:replace (*github.com/valyala/fasthttp.Response).SetBodyStream
+func vStubRespSetBodyStream(r *fasthttp.Response, s io.Reader, size int) {
+	vGhostOf(r).bodyStream = s
+	vGhostOf(&r.Header).contentLength = size
 }
